@@ -90,6 +90,7 @@ Definition colon_c : ascii := ":".
 Definition nats_of (f : str) : list nat := match f with [] => [] | _ => map nat_of_str (split_c dot_c f) end.
 Definition natss_of (f : str) : list (list nat) :=
   match f with [] => [] | _ => map (fun s => match s with [] => [] | _ => map nat_of_str (split_c colon_c s) end) (split_c dot_c f) end.
+Definition qs_of (f : str) : list Q := match f with [] => [] | _ => map parse_q (split_c dot_c f) end.
 Definition pts_of (f : str) : list pt :=
   match f with [] => [] | _ => map (fun s => match split_c colon_c s with [x; y] => (parse_q x, parse_q y) | _ => p0 end) (split_c dot_c f) end.
 Fixpoint layers_of (a : list str) : list (str * (Q * Q * Q)) :=
@@ -140,6 +141,7 @@ Definition parse_op (f : str) : option op :=
       else if is "cl"%string then Some (CopyLayers (layers_of a))
       else if is "sn"%string then match a with [t; n] => Some (SnapLayers (parse_q t) (names_of n)) | _ => None end
       else if is "sr"%string then match a with [n] => Some (SnapNearest (names_of n)) | _ => None end
+      else if is "fs"%string then match a with [n; z; t] => Some (FitSurface (names_of n) (qs_of z) (parse_q t)) | _ => None end
       else if is "tl"%string then match a with [x; y; z] => Some (Translate (parse_q x) (parse_q y) (parse_q z)) | _ => None end
       else if is "mv"%string then match a with [p; c] => Some (MoveNodes (pts_of p) (pts_of c)) | _ => None end
       else None
